@@ -28,7 +28,7 @@ NoExp(a) == [x \in (DOMAIN a) \ {"expiresIn"} |-> a[x]]
 
 Flt(name, fwd, store) == [name |-> name, store |-> store, accessFwd |-> fwd, logout |-> TRUE, prefix |-> "", abs |-> 0, idle |-> 0,
                           idPreamble |-> "Bearer", idHeader |-> "authorization", atHeader |-> "x-access-token", atPreamble |-> "",
-                          scopes |-> <<>>, authzQuery |-> "", clientId |-> "", discovery |-> FALSE, idp |-> ""]
+                          scopes |-> <<>>, authzQuery |-> "", clientId |-> "", discovery |-> FALSE, idp |-> "", callbackPort |-> ""]
 
 App(b, f, cookie, url, ans)  == [op |-> "check", b |-> b, f |-> f, kind |-> "app", cookie |-> cookie, url |-> url, ans |-> ans]
 Logout(b, f, cookie)         == [op |-> "check", b |-> b, f |-> f, kind |-> "logout", cookie |-> cookie]
@@ -75,7 +75,7 @@ C02Scn(p) ==
 (* C03: compliant provider answer shapes x configurations x originally requested URLs *)
 URLs == 0..9
 C03Core == [expiresIn : BOOLEAN, rt : BOOLEAN, fwd : BOOLEAN, store : {"memory", "redis"}]
-C03Alt  == {"none", "audArray", "bearerLower", "bearerUpper", "extra", "big", "prefix", "noLogout", "scopes", "discovery", "rules"}
+C03Alt  == {"none", "audArray", "bearerLower", "bearerUpper", "extra", "big", "prefix", "noLogout", "scopes", "discovery", "rules", "cbPort"}
 C03Space == IF Quick
             THEN [core : C03Core, alt : {"none"}, url : URLs] \cup [core : C03Core, alt : C03Alt, url : {1}]
             ELSE [core : C03Core, alt : C03Alt, url : URLs]
@@ -91,7 +91,8 @@ C03Scn(p) ==
       f  == [f0 EXCEPT !.prefix = (IF p.alt = "prefix" THEN "my-app.1" ELSE ""),
                        !.logout = (p.alt # "noLogout"),
                        !.scopes = (IF p.alt = "scopes" THEN <<"profile", "email">> ELSE <<>>),
-                       !.discovery = (p.alt = "discovery")]
+                       !.discovery = (p.alt = "discovery"),
+                       !.callbackPort = (IF p.alt = "cbPort" THEN "443" ELSE "")]   \* callback_uri names the default port, the browser's Host does not
       steps == <<Browse("b1", "f1", p.url, a), Tick(10), App("b1", "f1", "jar", p.url, a), Tick(20), App("b1", "f1", "jar", (p.url + 1) % 10, a)>>
       base == Scn("c03/" \o ToString(p.core.expiresIn) \o "-" \o ToString(p.core.rt) \o "-" \o ToString(p.core.fwd) \o "-" \o p.core.store
                     \o "/" \o p.alt \o "/u" \o ToString(p.url), <<f>>, steps, <<"compliantLogin">>)
@@ -104,14 +105,15 @@ C03Scn(p) ==
 (* C04: callback query shapes and replays *)
 QShapes == {"ok", "reordered", "dupGoodFirst", "dupBadFirst", "caseKeys", "noState", "noCode", "emptyState", "trailingSpace",
             "prefixState", "upperState", "empty", "noQuery", "pctzz", "semicolon", "fragment", "encodedKeys"}
-C04Space == [shape : QShapes, store : {"memory", "redis"}, replay : {"same", "otherSession", "noCookie"}]
+C04Space == [shape : QShapes, store : {"memory", "redis"}, replay : {"same", "otherSession", "noCookie"}, port : {""}]
+            \cup [shape : {"ok", "reordered"}, store : {"memory", "redis"}, replay : {"same"}, port : {"443"}]
 
 C04Scn(p) ==
-  LET f == Flt("f1", TRUE, p.store)
+  LET f == [Flt("f1", TRUE, p.store) EXCEPT !.callbackPort = p.port]
       again == IF p.replay = "same" THEN Callback("b1", "f1", "sid:1", "sid:1", "code:1", "ok", Ans0)
                ELSE IF p.replay = "otherSession" THEN Callback("b2", "f1", "sid:2", "sid:1", "code:1", "ok", Ans0)
                ELSE Callback("b2", "f1", "none", "sid:1", "code:1", "ok", Ans0)
-  IN Scn("c04/" \o p.shape \o "/" \o p.store \o "/" \o p.replay, <<f>>,
+  IN Scn("c04/" \o p.shape \o "/" \o p.store \o "/" \o p.replay \o (IF p.port = "" THEN "" ELSE "/port" \o p.port), <<f>>,
          <<App("b1", "f1", "none", 1, Ans0), App("b2", "f1", "none", 2, Ans0), Authz("b1", 1), Authz("b2", 2),
            Callback("b1", "f1", "sid:1", "sid:1", "code:1", p.shape, Ans0),
            Callback("b1", "f1", "sid:1", "sid:1", "code:1", "ok", Ans0),      \* honest completion (or a replay if the shaped one succeeded)
